@@ -1057,7 +1057,7 @@ Theorem C08_torn es k :
 Proof. apply C08_torn_buf, load_buf_size_ge. Qed.
 
 (* ---------------------------------------------------------------------------------------- *)
-(** ** Appending after a torn tail: the merged line *)
+(** ** OLD behaviour (record_append_old, before the fix): appending after a torn tail merges lines *)
 
 Lemma parse_line_fields (f1 f2 f3 f4 r : bytes) :
   no_byte 9 f1 = true -> no_byte 9 f2 = true -> no_byte 9 f3 = true -> no_byte 9 f4 = true ->
@@ -1136,9 +1136,9 @@ Proof.
   destruct e'; reflexivity.
 Qed.
 
-Lemma record_append_nonempty (f : bytes) es :
-  f <> [] -> record_append f es = f ++ concat (map render_entry es).
-Proof. intros H. unfold record_append. destruct f; [congruence|reflexivity]. Qed.
+Lemma record_append_old_nonempty (f : bytes) es :
+  f <> [] -> record_append_old f es = f ++ concat (map render_entry es).
+Proof. intros H. unfold record_append_old. destruct f; [congruence|reflexivity]. Qed.
 
 Lemma Forall2_app_parse l1 e1 l2 e2 :
   Forall2 (fun line e => parse_line line = Some e) l1 e1 ->
@@ -1146,18 +1146,18 @@ Lemma Forall2_app_parse l1 e1 l2 e2 :
   Forall2 (fun line e => parse_line line = Some e) (l1 ++ l2) (e1 ++ e2).
 Proof. apply Forall2_app. Qed.
 
-Theorem C08_append_after_tear_buf B es k e' tl :
+Theorem C08_append_after_tear_old_buf B es k e' tl :
   (15 <= B)%nat -> Forall wf_entry es -> Forall (fits B) es ->
   Forall wf_entry (e' :: tl) -> Forall (fits B) tl ->
   (length (torn_fragment k es) + length (render_entry e') <= B)%nat ->
   (length log_header <= k)%nat ->
-  load_log_buf B (record_append (firstn k (log_header ++ concat (map render_entry es))) (e' :: tl)) =
+  load_log_buf B (record_append_old (firstn k (log_header ++ concat (map render_entry es))) (e' :: tl)) =
   loaded (complete_prefix k es ++ merged_line_entry (torn_fragment k es) e' ++ tl).
 Proof.
   intros HB Hw Hf Hw' Hftl Hmerged Hk. rewrite length_log_header in Hk.
   inversion Hw' as [|? ? Hwe' Hwtl]; subst.
   rewrite firstn_file by assumption.
-  rewrite record_append_nonempty by (rewrite log_header_eq; discriminate).
+  rewrite record_append_old_nonempty by (rewrite log_header_eq; discriminate).
   destruct (wf_entry_inv e' Hwe') as (_ & _ & H9 & Hnl' & _).
   destruct (merged_parse (torn_fragment k es) e' H9) as (x & Hx & Hpx).
   rewrite Hx.
@@ -1181,19 +1181,19 @@ Proof.
     constructor; [assumption|constructor].
 Qed.
 
-Theorem C08_append_after_tear es k e' tl :
+Theorem C08_append_after_tear_old es k e' tl :
   Forall wf_entry es -> Forall (fits load_buf_size) es ->
   Forall wf_entry (e' :: tl) -> Forall (fits load_buf_size) tl ->
   (length (torn_fragment k es) + length (render_entry e') <= load_buf_size)%nat ->
   (length log_header <= k)%nat ->
   let ents := complete_prefix k es ++ merged_line_entry (torn_fragment k es) e' ++ tl in
-  load_log (record_append (firstn k (log_header ++ concat (map render_entry es))) (e' :: tl)) =
+  load_log (record_append_old (firstn k (log_header ++ concat (map render_entry es))) (e' :: tl)) =
   LOk (last_wins ents)
       (needs_recompaction_of (N.of_nat (length (last_wins ents))) (N.of_nat (length ents))).
-Proof. intros. apply C08_append_after_tear_buf; try assumption. apply load_buf_size_ge. Qed.
+Proof. intros. apply C08_append_after_tear_old_buf; try assumption. apply load_buf_size_ge. Qed.
 
 (* ---------------------------------------------------------------------------------------- *)
-(** ** The safe direction *)
+(** ** The safe direction, OLD behaviour (needs a side condition) *)
 
 (* [live out hash]: the manifest has an output [out] whose current command hashes to [hash]
    (for generator rules, which ignore the hash: [live out _] for that output).
@@ -1210,21 +1210,21 @@ Proof.
   destruct (bytes_eqb (e_out x) n); [intros [= <-]; left; reflexivity|right; assumption].
 Qed.
 
-Theorem C08_safe_direction_partial_buf B live es k e' tl :
+Theorem C08_safe_direction_old_partial_buf B live es k e' tl :
   (15 <= B)%nat -> Forall wf_entry es -> Forall (fits B) es ->
   Forall wf_entry (e' :: tl) -> Forall (fits B) tl ->
   (length (torn_fragment k es) + length (render_entry e') <= B)%nat ->
   (length log_header <= k)%nat ->
   no_collision live (torn_fragment k es) e' ->
   exists ents needs,
-    load_log_buf B (record_append (firstn k (log_header ++ concat (map render_entry es))) (e' :: tl))
+    load_log_buf B (record_append_old (firstn k (log_header ++ concat (map render_entry es))) (e' :: tl))
       = LOk ents needs /\
     forall y, In y ents -> live (e_out y) (e_hash y) = true ->
       (y = e' /\ merged_line_entry (torn_fragment k es) e' = [e']) \/
       latest (e_out y) (complete_prefix k es ++ tl) = Some y.
 Proof.
   intros HB Hw Hf Hw' Hftl Hm Hk Hnc.
-  rewrite (C08_append_after_tear_buf B es k e' tl HB Hw Hf Hw' Hftl Hm Hk).
+  rewrite (C08_append_after_tear_old_buf B es k e' tl HB Hw Hf Hw' Hftl Hm Hk).
   eexists. eexists. split; [reflexivity|].
   intros y Hy Hlive. apply In_last_wins_latest in Hy.
   inversion Hw' as [|? ? Hwe' _]; subst. destruct (wf_entry_inv e' Hwe') as (_ & _ & H9 & _).
@@ -1234,19 +1234,19 @@ Proof.
   left. split; [reflexivity|assumption].
 Qed.
 
-Theorem C08_safe_direction_partial live es k e' tl :
+Theorem C08_safe_direction_old_partial live es k e' tl :
   Forall wf_entry es -> Forall (fits load_buf_size) es ->
   Forall wf_entry (e' :: tl) -> Forall (fits load_buf_size) tl ->
   (length (torn_fragment k es) + length (render_entry e') <= load_buf_size)%nat ->
   (length log_header <= k)%nat ->
   no_collision live (torn_fragment k es) e' ->
   exists ents needs,
-    load_log (record_append (firstn k (log_header ++ concat (map render_entry es))) (e' :: tl))
+    load_log (record_append_old (firstn k (log_header ++ concat (map render_entry es))) (e' :: tl))
       = LOk ents needs /\
     forall y, In y ents -> live (e_out y) (e_hash y) = true ->
       (y = e' /\ merged_line_entry (torn_fragment k es) e' = [e']) \/
       latest (e_out y) (complete_prefix k es ++ tl) = Some y.
-Proof. intros. apply C08_safe_direction_partial_buf; try assumption. apply load_buf_size_ge. Qed.
+Proof. intros. apply C08_safe_direction_old_partial_buf; try assumption. apply load_buf_size_ge. Qed.
 
 (* The witness that [no_collision] cannot be dropped.  Outputs "gen0" (command hash 0x25) and
    "gen"; the record of "gen" is torn right after the name (4 tabs short of ... 3 tabs in the
@@ -1268,11 +1268,11 @@ Definition wit_k : nat := 42.     (* 15 (header) + 16 (gen0 record) + 11 ("7\t9\
 Definition wit_bad : entry :=
   {| e_out := [103; 101; 110; 48]; e_start := 7; e_end := 9; e_mtime := 200; e_hash := 37 |}.
 
-Theorem C08_safe_direction_refuted :
+Theorem C08_safe_direction_old_refuted :
   exists live es k e' tl,
     Forall wf_entry es /\ Forall wf_entry (e' :: tl) /\ (length log_header <= k)%nat /\
     exists ents needs y,
-      load_log (record_append (firstn k (log_header ++ concat (map render_entry es))) (e' :: tl))
+      load_log (record_append_old (firstn k (log_header ++ concat (map render_entry es))) (e' :: tl))
         = LOk ents needs /\
       In y ents /\ live (e_out y) (e_hash y) = true /\
       ~ In y (es ++ e' :: tl) /\
@@ -1291,15 +1291,193 @@ Proof.
 Qed.
 
 (* ---------------------------------------------------------------------------------------- *)
+(** ** FIXED behaviour (record_append): the torn tail is terminated before the first append *)
+
+Lemma last_cons_nonempty {A} (x : A) l d : l <> [] -> last (x :: l) d = last l d.
+Proof. destruct l; [congruence|reflexivity]. Qed.
+
+Lemma last_app_nonempty {A} (a b : list A) d : b <> [] -> last (a ++ b) d = last b d.
+Proof.
+  intros Hb. induction a as [|x a IH]; [reflexivity|].
+  cbn [app]. rewrite last_cons_nonempty; [exact IH|].
+  destruct a; [exact Hb|discriminate].
+Qed.
+
+Lemma last_In {A} (l : list A) d : l <> [] -> In (last l d) l.
+Proof.
+  induction l as [|x l IH]; intros H; [congruence|].
+  destruct l as [|y l]; [left; reflexivity|]. right. apply IH. discriminate.
+Qed.
+
+Lemma last_join_lines l ls : last (join_lines (l :: ls)) 0 = 10.
+Proof.
+  revert l. induction ls as [|l' ls IH]; intros l.
+  - unfold join_lines. cbn [map concat]. rewrite app_nil_r. apply last_last.
+  - change (join_lines (l :: l' :: ls)) with ((l ++ [10]) ++ join_lines (l' :: ls)).
+    rewrite last_app_nonempty; [apply IH|]. unfold join_lines. cbn [map concat].
+    destruct l'; discriminate.
+Qed.
+
+(* a complete log written by ninja ends with a newline *)
+Lemma wellformed_file_lines R :
+  log_header ++ concat (map render_entry R) = join_lines (header_line :: map render_body R).
+Proof.
+  rewrite concat_render, log_header_eq. unfold join_lines. cbn [map concat]. reflexivity.
+Qed.
+
+Lemma wellformed_last_lf R : last (log_header ++ concat (map render_entry R)) 0 = 10.
+Proof. rewrite wellformed_file_lines. apply last_join_lines. Qed.
+
+Lemma record_append_wellformed R es :
+  record_append (log_header ++ concat (map render_entry R)) es =
+  log_header ++ concat (map render_entry (R ++ es)).
+Proof.
+  unfold record_append. rewrite wellformed_last_lf, N.eqb_refl.
+  destruct (log_header ++ concat (map render_entry R)) as [|c f] eqn:Hf.
+  - rewrite log_header_eq in Hf. discriminate.
+  - rewrite <- Hf. cbn [app]. rewrite map_app, concat_app, app_assoc. reflexivity.
+Qed.
+
+(* a file that ends in the middle of a line gets ONE newline first *)
+Lemma record_append_torn (f frag : bytes) es :
+  frag <> [] -> no_byte 10 frag = true ->
+  record_append (f ++ frag) es = f ++ frag ++ [10] ++ concat (map render_entry es).
+Proof.
+  intros Hne Hnl. unfold record_append. rewrite last_app_nonempty by assumption.
+  assert (Hlast : last frag 0 <> 10).
+  { pose proof (last_In frag 0 Hne) as Hin. apply no_byte_Forall in Hnl.
+    rewrite Forall_forall in Hnl. apply Hnl. assumption. }
+  destruct (N.eqb_spec (last frag 0) 10) as [?|_]; [contradiction|].
+  destruct (f ++ frag) as [|c r] eqn:Hf.
+  - destruct f; [cbn in Hf; congruence|discriminate].
+  - rewrite <- Hf. rewrite <- !app_assoc. reflexivity.
+Qed.
+
+(* lines that may or may not parse *)
+Definition opt_list {A} (o : option A) : list A := match o with Some x => [x] | None => [] end.
+
+Lemma fold_load_step_opt lines : forall os l t,
+  Forall2 (fun line o => parse_line line = o) lines os ->
+  fold_left load_step lines (acc_of l t) =
+  acc_of (upsert_all (concat (map opt_list os)) l)
+         (t + N.of_nat (length (concat (map opt_list os)))).
+Proof.
+  induction lines as [|line lines IH]; intros os l t H; inversion H as [|? o ? os' Hp H']; subst.
+  - cbn [fold_left map concat upsert_all length]. f_equal. lia.
+  - cbn [fold_left map concat]. destruct (parse_line line) as [e|] eqn:Hpe.
+    + rewrite (load_step_some l t line e Hpe). rewrite (IH os' _ _ H').
+      cbn [opt_list app upsert_all fold_left length]. f_equal. lia.
+    + rewrite (load_step_none _ _ Hpe). rewrite (IH os' _ _ H'). reflexivity.
+Qed.
+
+Lemma load_header_lines_opt B lines os (frag : bytes) :
+  (15 <= B)%nat -> Forall (short_line B) lines ->
+  Forall2 (fun line o => parse_line line = o) lines os ->
+  no_byte 10 frag = true -> (length frag <= B)%nat ->
+  load_log_buf B (log_header ++ join_lines lines ++ frag) = loaded (concat (map opt_list os)).
+Proof.
+  intros HB Hsh Hp Hnl Hlen.
+  replace (log_header ++ join_lines lines ++ frag)
+    with (join_lines (header_line :: lines) ++ frag)
+    by (rewrite join_lines_cons, log_header_eq, <- app_assoc; reflexivity).
+  rewrite load_short_lines; [|lia|constructor; [apply short_header; assumption|assumption]
+                              |assumption|assumption].
+  rewrite match_nonempty by (rewrite join_lines_cons; discriminate).
+  replace (join_lines (header_line :: lines) ++ frag)
+    with (log_header ++ join_lines lines ++ frag)
+    by (rewrite join_lines_cons, log_header_eq, <- app_assoc; reflexivity).
+  rewrite firstn_app, (firstn_all2 log_header) by (rewrite length_log_header; lia).
+  rewrite scan_header. unfold load_spec_res.
+  change (7 <? oldest_supported_version)%Z with false.
+  change (current_version <? 7)%Z with false. cbn iota.
+  cbn [fold_left]. rewrite (load_step_none _ _ parse_header_line).
+  change la_empty with (acc_of [] 0). rewrite (fold_load_step_opt lines os [] 0 Hp).
+  unfold load_finish, acc_of, loaded, needs_of, last_wins. cbn [la_entries la_unique la_total].
+  change (7 <? current_version)%Z with false. cbn [orb]. reflexivity.
+Qed.
+
+Lemma Forall2_render_opt es :
+  Forall wf_entry es ->
+  Forall2 (fun line o => parse_line line = o) (map render_body es) (map Some es).
+Proof.
+  induction es as [|e es IH]; intros H; [constructor|].
+  inversion H as [|? ? He Hes]; subst. cbn [map]. constructor; [apply parse_render; assumption|].
+  apply IH; assumption.
+Qed.
+
+Lemma concat_opt_Some (es : list entry) : concat (map opt_list (map Some es)) = es.
+Proof. induction es as [|e es IH]; [reflexivity|]. cbn [map concat opt_list app]. rewrite IH. reflexivity. Qed.
+
+Lemma torn_fragment_lt B a : forall es,
+  (0 < B)%nat -> Forall (fits B) es -> (length (torn_fragment_from a es) < B)%nat.
+Proof.
+  intros es HB. revert a. induction es as [|e es IH]; intros a Hf; [cbn; lia|].
+  inversion Hf as [|? ? Hfe Hf']; subst. cbn [torn_fragment_from].
+  destruct (Nat.leb_spec (length (render_entry e)) a) as [Hle|Hgt]; [apply IH; assumption|].
+  rewrite firstn_length. unfold fits in Hfe. lia.
+Qed.
+
+(* THE theorem about appending after a tear, fixed code: the fragment is a line of its own *)
+Theorem C08_append_after_tear_buf B es k es' :
+  (15 <= B)%nat -> Forall wf_entry es -> Forall (fits B) es ->
+  Forall wf_entry es' -> Forall (fits B) es' ->
+  (length log_header <= k)%nat ->
+  load_log_buf B (record_append (firstn k (log_header ++ concat (map render_entry es))) es') =
+  loaded (complete_prefix k es ++ fragment_entry (torn_fragment k es) ++ es').
+Proof.
+  intros HB Hw Hf Hw' Hf' Hk. rewrite length_log_header in Hk.
+  rewrite firstn_file by assumption.
+  destruct (torn_fragment_ok B (k - length log_header) es Hw Hf) as [Hnl _].
+  pose proof (torn_fragment_lt B (k - length log_header) es ltac:(lia) Hf) as Hlt.
+  fold (torn_fragment k es) in Hnl, Hlt.
+  set (frag := torn_fragment k es) in *. set (cp := complete_prefix k es).
+  assert (Hcpw : Forall wf_entry cp) by (apply complete_prefix_Forall; assumption).
+  assert (Hcpf : Forall (fits B) cp) by (apply complete_prefix_Forall; assumption).
+  clearbody frag cp. destruct frag as [|c0 fr].
+  - (* cut at a record boundary: nothing to terminate *)
+    rewrite app_nil_r, <- concat_render, record_append_wellformed.
+    unfold fragment_entry. cbn [parse_line split_tab app].
+    apply C08_roundtrip_buf; [assumption|apply Forall_app; split; assumption
+                             |apply Forall_app; split; assumption].
+  - set (frag := c0 :: fr) in *.
+    rewrite app_assoc, record_append_torn by (try assumption; discriminate).
+    replace ((log_header ++ join_lines (map render_body cp)) ++
+             frag ++ [10] ++ concat (map render_entry es'))
+      with (log_header ++
+            join_lines (map render_body cp ++ [frag] ++ map render_body es') ++ []).
+    2:{ rewrite !join_lines_app. rewrite concat_render.
+        unfold join_lines at 2. cbn [map concat]. norm_app. reflexivity. }
+    rewrite (load_header_lines_opt B _ (map Some cp ++ [parse_line frag] ++ map Some es'));
+      [|assumption| | |reflexivity|cbn; lia].
+    + rewrite !map_app, !concat_app, !concat_opt_Some. cbn [map concat]. rewrite app_nil_r.
+      reflexivity.
+    + apply Forall_app. split; [apply short_bodies; assumption|].
+      apply Forall_app. split; [|apply short_bodies; assumption].
+      constructor; [split; assumption|constructor].
+    + apply Forall2_app; [apply Forall2_render_opt; assumption|].
+      apply Forall2_app; [|apply Forall2_render_opt; assumption].
+      constructor; [reflexivity|constructor].
+Qed.
+
+Theorem C08_append_after_tear es k es' :
+  Forall wf_entry es -> Forall (fits load_buf_size) es ->
+  Forall wf_entry es' -> Forall (fits load_buf_size) es' ->
+  (length log_header <= k)%nat ->
+  let ents := complete_prefix k es ++ fragment_entry (torn_fragment k es) ++ es' in
+  load_log (record_append (firstn k (log_header ++ concat (map render_entry es))) es') =
+  LOk (last_wins ents)
+      (needs_recompaction_of (N.of_nat (length (last_wins ents))) (N.of_nat (length ents))).
+Proof. intros. apply C08_append_after_tear_buf; try assumption. apply load_buf_size_ge. Qed.
+
+(* ---------------------------------------------------------------------------------------- *)
 (** ** Sessions, recompaction, restat, versions *)
 
-Lemma fold_record_append_nonempty ss : forall (f : bytes),
-  f <> [] -> fold_left record_append ss f = f ++ concat (map render_entry (concat ss)).
+Lemma fold_record_append_wellformed ss : forall R,
+  fold_left record_append ss (log_header ++ concat (map render_entry R)) =
+  log_header ++ concat (map render_entry (R ++ concat ss)).
 Proof.
-  induction ss as [|s ss IH]; intros f Hf; [cbn; symmetry; apply app_nil_r|].
-  cbn [fold_left concat]. rewrite IH.
-  - rewrite record_append_nonempty by assumption. rewrite map_app, concat_app, app_assoc. reflexivity.
-  - rewrite record_append_nonempty by assumption. destruct f; [congruence|discriminate].
+  induction ss as [|s ss IH]; intros R; [cbn [fold_left concat]; rewrite app_nil_r; reflexivity|].
+  cbn [fold_left concat]. rewrite record_append_wellformed, IH, app_assoc. reflexivity.
 Qed.
 
 Lemma loaded_nil : loaded [] = LOk [] false.
@@ -1312,9 +1490,10 @@ Theorem C08_sessions_buf B (sessions : list (list entry)) :
 Proof.
   intros HB Hw Hf. destruct sessions as [|s ss].
   - cbn [fold_left concat]. rewrite load_small; [reflexivity|lia|reflexivity|cbn; lia].
-  - cbn [fold_left]. unfold record_append at 2. cbn [app].
-    rewrite fold_record_append_nonempty by (rewrite log_header_eq; discriminate).
-    rewrite <- app_assoc, <- concat_app, <- map_app.
+  - cbn [fold_left].
+    replace (record_append [] s) with (log_header ++ concat (map render_entry s))
+      by (unfold record_append; reflexivity).
+    rewrite fold_record_append_wellformed.
     apply C08_roundtrip_buf; assumption.
 Qed.
 
@@ -1738,13 +1917,11 @@ Proof.
     assert (HfF : Forall (fits load_buf_size) (filter (fun e => live (e_out e)) (last_wins R))).
     { apply Forall_filter. rewrite Forall_forall in *. intros y Hy. apply Hf, In_last_wins, Hy. }
     split; [apply Forall_app; split; assumption|]. split; [apply Forall_app; split; assumption|].
-    right. unfold recompact. rewrite record_append_nonempty by (rewrite log_header_eq; discriminate).
-    rewrite map_app, concat_app, app_assoc. reflexivity.
+    right. unfold recompact. apply record_append_wellformed.
   - split; [apply Forall_app; split; assumption|]. split; [apply Forall_app; split; assumption|].
     right. destruct Hfile as [[-> ->] | ->].
     + reflexivity.
-    + rewrite record_append_nonempty by (rewrite log_header_eq; discriminate).
-      rewrite map_app, concat_app, app_assoc. reflexivity.
+    + apply record_append_wellformed.
 Qed.
 
 (* A run of several invocations, as a relation: [runs ss f f'] iff starting with the file [f] the
